@@ -36,6 +36,7 @@
     filler_confined_partial filler_confined_stream_partial filler_input_confined filler_option_confined
     filler_fills_textarea filler_nested_form_unfilled
     buffer_feedback_diverges buffer_two_writers_ill_nested
+    apply_leaves_origin apply_appends_one_link history_keeps_chains
 -/
 import Genshi.Lemmas.TfSegs2
 import Genshi.Lemmas.TfChains
@@ -350,6 +351,41 @@ theorem attr_wrap_emits_empty_wrapper :
       [.start (qn 'r') [], .start (qn 'a') [(qn 'x', ['1'])], .end_ (qn 'a'), .end_ (qn 'r')] =
     some [.start (qn 'r') [], .start (qn 'w') [], .end_ (qn 'w'), .start (qn 'a') [(qn 'x', ['1'])],
       .end_ (qn 'a'), .end_ (qn 'r')] := by decide
+
+/-! ## derived transformers (`Transformer.apply`) -/
+
+/-- Deriving a transformer leaves every transformer built before — in particular the one it is
+    derived from — as it was: a transformer that only selects stays one that only selects. -/
+theorem apply_leaves_origin {α : Type} (h : List (List α)) (k : Nat) (x : α) (i : Nat) (hi : i < h.length) :
+    (derive h k x)[i]? = h[i]? := by
+  simp [derive, List.getElem?_append_left hi]
+
+/-- … and the new transformer is its origin's chain plus the one new link. -/
+theorem apply_appends_one_link {α : Type} (h : List (List α)) (k : Nat) (x : α) :
+    (derive h k x)[h.length]? = some (h.getD k [] ++ [x]) ∧ (derive h k x).length = h.length + 1 := by
+  simp [derive]
+
+/-- Over a whole history of derivations: every snapshot extends the previous one, nothing is ever
+    changed (the chains of the first `h.length` objects are `h` in every snapshot). -/
+theorem history_keeps_chains {α : Type} : ∀ (ds : List (Nat × α)) (h : List (List α)) (snap : List (List α)),
+    snap ∈ history h ds → snap.take h.length = h := by
+  intro ds
+  induction ds with
+  | nil => intro h snap hm; simp [history] at hm
+  | cons d ds ih =>
+    intro h snap hm
+    obtain ⟨k, x⟩ := d
+    simp only [history, List.mem_cons] at hm
+    rcases hm with rfl | hm
+    · simp [derive]
+    · have := ih (derive h k x) snap hm
+      have hl : (derive h k x).length = h.length + 1 := by simp [derive]
+      have h2 : snap.take h.length = (snap.take (derive h k x).length).take h.length := by
+        rw [List.take_take]; congr 1; omega
+      rw [h2, this]; simp [derive]
+
+example : history [[0]] [(0, 1), (0, 2), (1, 3)] =
+    [[[0], [0, 1]], [[0], [0, 1], [0, 2]], [[0], [0, 1], [0, 2], [0, 1, 3]]] := by decide
 
 /-! ## the chain as the code runs it: lazily interleaved links (`Model/TfLazy.lean`) -/
 
